@@ -64,7 +64,15 @@ func runSolver(s Solver, script string, tag string, timeout int) SolveResult {
 	return runSolverCtx(context.Background(), s, script, tag, timeout)
 }
 
+var solverSlots = make(chan struct{}, 14)
+
 func runSolverCtx(parent context.Context, s Solver, script string, tag string, timeout int) SolveResult {
+	select {
+	case solverSlots <- struct{}{}:
+	case <-parent.Done():
+		return SolveResult{Status: "cancelled", Solver: s.Name}
+	}
+	defer func() { <-solverSlots }()
 	file := filepath.Join(scratch(), fmt.Sprintf("%s.%s.smt2", tag, s.Name))
 	if err := os.WriteFile(file, []byte(script), 0o644); err != nil {
 		return SolveResult{Status: "error", Solver: s.Name, Output: err.Error()}
